@@ -38,7 +38,11 @@ func runLBDist(x *X) {
 	hostN := 0
 	newMember := func() member {
 		hostN++
-		return member{name: fmt.Sprintf("b%d", hostN), weight: c.Intn(7, "weight"), host: x.BackendHost(2, hostN)}
+		w := c.Intn(7, "weight")
+		if c.Intn(25, "heavy-weight") == 0 {
+			w = []int{300, 700, 1100}[c.Intn(3, "heavy")] // one big machine next to small ones: a long cycle
+		}
+		return member{name: fmt.Sprintf("b%d", hostN), weight: w, host: x.BackendHost(2, hostN)}
 	}
 	var bcs []config.BackendConfig
 	for i := 0; i < nb; i++ {
@@ -389,8 +393,22 @@ func runLBDist(x *X) {
 	case "weighted_round_robin":
 		mult := 2 + c.Intn(3, "mult")
 		total := mult * wElig
-		if total > 160 {
-			total = 160
+		// most measurements are short; now and then a long one (thousands of picks: what only shows
+		// after many cycles, or within one very long cycle, shows here)
+		longOdds := 60
+		if x.Tier == "thorough" {
+			longOdds = 12
+		}
+		limit := 160
+		if c.Intn(longOdds, "wrr-long-run") == 0 {
+			limit = 2600 // (the scheduler's step budget per run allows about three times that)
+			if total < 1300 {
+				total = 1300 + c.Intn(1300, "wrr-long-n")
+			}
+			x.Probe("wrr-long-run")
+		}
+		if total > limit {
+			total = limit
 		}
 		clean := true
 		// some requests stay in flight during the measurement (slow answers): the rotation is a
@@ -398,7 +416,7 @@ func runLBDist(x *X) {
 		withInflight := c.Intn(2, "wrr-inflight") == 1
 		var heldPlans []*reqPlan
 		for i := 0; i < total && !x.dead; i++ {
-			if withInflight && len(heldPlans) < 6 && c.Intn(4, "hold-this") == 0 {
+			if withInflight && limit == 160 && len(heldPlans) < 6 && c.Intn(4, "hold-this") == 0 {
 				p := &reqPlan{hold: true}
 				heldPlans = append(heldPlans, p)
 				var id int
